@@ -5,6 +5,7 @@
 (*                 what the real preprocess_args + Signature.bind_arguments did for the case,      *)
 (*    vis  |-> "ok" | "err" | "none"   incompatible_call on the generated call line (real visitor; *)
 (*                 "none" = this case was not sent through the visitor),                           *)
+(*    vispos |-> the positions the Bind hook recorded inside the visitor (<<"none">> without hook), *)
 (*    cpy  |-> "ok" | "err" | "na"     what really executing the call did under CPython (concrete  *)
 (*                 shapes; "err" = TypeError),                                                      *)
 (*    exp  |-> [names, maxexp, total, binding]  for unknown-length star arguments: the key names   *)
@@ -25,12 +26,13 @@ OracleConcrete(o) == RefBinds(o.case.sig, Expand(o.case.call, NoExpansion)) = (o
 
 OracleUniverse(o) ==
     /\ ToSet(o.exp.names) = ExpNames(o.case)
-    /\ o.exp.maxexp = MaxExp
-    /\ o.exp.total = Cardinality(Expansions(o.case, MaxExp, FALSE))
+    /\ o.exp.maxexp = ExpBound(o.case, MaxExp)
+    /\ o.exp.total = Cardinality(Expansions(o.case, ExpBound(o.case, MaxExp), FALSE))
 
 RealBinding(o) == {[n |-> o.exp.binding[j][1], K |-> ToSet(o.exp.binding[j][2])] : j \in 1..Len(o.exp.binding)}
 OracleExpansions(o) ==
-    {e \in Expansions(o.case, MaxExp, FALSE) : RefBinds(o.case.sig, Expand(o.case.call, e))} = RealBinding(o)
+    {e \in Expansions(o.case, ExpBound(o.case, MaxExp), FALSE) : RefBinds(o.case.sig, Expand(o.case.call, e))}
+        = RealBinding(o)
 
 \* ---- the property on a real verdict v ("ok" | "err"); tag distinguishes binder / visitor
 JudgeVerdict(o, v, tag) ==
@@ -56,6 +58,12 @@ Drift(o) ==
        THEN (IF m.bound = o.real.positions THEN TRUE ELSE Say(o.tid, "drift:positions"))
        ELSE (IF ErrClass(m.why) = o.real.errclass THEN TRUE ELSE Say(o.tid, "drift:error-branch"))
 
+\* the positions recorded by the Bind hook inside the visitor's own call (when the hook is in the tree)
+DriftHook(o) ==
+    LET m == ImplRun(o.case)
+    IN IF (IF m.verdict = "ok" THEN m.bound ELSE <<"rejected">>) = o.vispos THEN TRUE
+       ELSE Say(o.tid, "drift:visitor-hook-positions")
+
 Step1(o) ==
     IF IsConcrete(o.case.call)
     THEN (IF OracleConcrete(o) THEN TRUE ELSE Say(o.tid, "oracle:concrete-call"))
@@ -72,6 +80,7 @@ TNext ==
           /\ (IF o.vis = "none" THEN TRUE ELSE JudgeVerdict(o, o.vis, "-visitor"))
           /\ (IF o.real.verdict \in {"ok", "err"} THEN Drift(o) ELSE TRUE)
           /\ (IF o.vis = "none" \/ o.vis = o.real.verdict THEN TRUE ELSE Say(o.tid, "drift:visitor-vs-binder"))
+          /\ (IF o.vispos = <<"none">> THEN TRUE ELSE DriftHook(o))
     /\ l' = l + 1
     /\ UNCHANGED vars
 =============================================================================
